@@ -147,6 +147,20 @@ def _flow_graphs(yaml_text, mode):
         program.reset()
 
 
+class _Recorder:
+    """Wraps teaal.trans.hifiber.FlowGraph for one compilation: every flow graph HiFiber builds is kept with the
+    loop ranks of its Einsum (captured at construction, the Program object is re-used for the next Einsum)."""
+
+    def __init__(self, real):
+        self.real = real
+        self.seen = []
+
+    def __call__(self, program, metrics, opts):
+        fg = self.real(program, metrics, opts)
+        self.seen.append((fg, list(program.get_loop_order().get_ranks())))
+        return fg
+
+
 def c10_unit(args):
     import teaal.ir.flow_graph as fgmod
     spec = args["spec"]
@@ -184,16 +198,23 @@ def c10_unit(args):
         fgmod.nx = proxy
         try:
             rec = {"stream": t, "strategy": strategy}
+            import teaal.trans.hifiber as hfmod
+            recorder = _Recorder(hfmod.FlowGraph)
+            hfmod.FlowGraph = recorder
             try:
-                for i, g, order, lo in _flow_graphs(yaml_text, mode):
+                # one full translation under this tie-break; the flow graphs it built are checked as built
+                st2, text2, info2 = units.compile_spec(yaml_text, mode)
+                for i, (fg, lo) in enumerate(recorder.seen):
+                    g, order = fg.get_graph(), fg.get_sorted()
                     probs = check_order(g, order, lo)
                     out["sequences"].append(units.specmod_digest([repr(n) for n in order]))
                     if probs:
                         rec.setdefault("order_problems", []).append({"einsum": i, "problems": probs[:3]})
-                st2, text2, info2 = units.compile_spec(yaml_text, mode)
             except Exception as ex:
                 rec["exception"] = "%s: %s" % (type(ex).__name__, str(ex)[:200])
                 st2 = None
+            finally:
+                hfmod.FlowGraph = recorder.real
             out["tiebreak_choices"] += proxy.choices
             if st2 == "rejected":
                 rec["rejected_under_tiebreak"] = info2
